@@ -453,7 +453,7 @@ def _tasks(tier, seed):
   # any swap of two ancestors in the MRO is visible through `Leaf.attr`
   t5 = [[p, H.targeted_leaves(4)] for p in H.targeted_prefixes(5, O.legal_prefix)]
   t6 = [[p, H.targeted_leaves(5)] for p in H.targeted_prefixes(6, O.legal_prefix)]
-  n6_src, n6_stub = (60, 0) if tier == "quick" else (len(t6), 120)
+  n6_src, n6_stub = (24, 0) if tier == "quick" else (250, 60)
   t6_src = rng.sample(t6, n6_src)
   t6_stub = rng.sample(t6, n6_stub)
   info["targeted: 2-3 roots, middle classes 1-2 bases, last class every ordered 2-3 bases"] = {
